@@ -272,7 +272,7 @@ def build_inventory(trees):
 
 
 # ------------------------------------------------------------------------------------------------ pass 1: diagnostics
-PURE_CALLS = {"len", "str", "repr", "list", "tuple", "sorted", "type", "int", "float", "abs", "sum", "min", "max", "dict", "set", "round", "format", "bool", "id"}
+PURE_CALLS = {"len", "str", "repr", "list", "tuple", "sorted", "type", "int", "float", "abs", "sum", "min", "max", "dict", "set", "round", "format", "bool", "id", "getattr", "hasattr", "isinstance"}
 
 
 def _effect_free(e):
@@ -2310,6 +2310,15 @@ def drop_guards_of_the_lookup_that_follows(trees, inv):
                                     and isinstance(tst.ops[0], ast.In if neg else ast.NotIn) and _pure_path(tst.left) and _pure_path(tst.comparators[0]) \
                                     and (not isinstance(exc, ast.Call) or all(_effect_free(a) for a in exc.args)):
                                 want = ast.dump(ast.Subscript(value=tst.comparators[0], slice=tst.left, ctx=ast.Load()))
+                                # statements between the guard and the lookup that only bind effect-free values (and none of the names the
+                                # guard reads) are stepped over
+                                gnames = {y.id for y in ast.walk(tst) if isinstance(y, ast.Name)}
+                                j = i + 1
+                                while j + 1 < len(blk) and isinstance(blk[j], ast.Assign) and _effect_free(blk[j].value) and ast.dump(blk[j].value).find(want) < 0 \
+                                        and not any(isinstance(y, ast.Name) and y.id in gnames and isinstance(y.ctx, ast.Store) for y in ast.walk(blk[j])) \
+                                        and all(isinstance(t_, ast.Name) for t_ in blk[j].targets):
+                                    j += 1
+                                nxt = blk[j]
                                 val = nxt.value if isinstance(nxt, (ast.Return, ast.Assign, ast.Expr)) else None
                                 if val is not None:
                                     if ast.dump(val) == want:
@@ -2534,6 +2543,7 @@ def canonicalise(trees, specialise=True):
     for c, h in done:
         notes.append("inlined new helper %s into %s" % (h, c))
     if done:
+        notes += drop_guards_of_the_lookup_that_follows(trees, inv)
         notes += fold_none_tests_on_containers(trees)
         notes += enumerate_index_only(trees, inv)
     notes += split_new_tuple_locals(trees, inv)
